@@ -365,6 +365,9 @@ S('st_send_stored_limit_v5', {'C14': 'quick', 'C06': 'thorough', 'C08': 'thoroug
 for _n, _d in (('pubrel', 'PUBREL (4 bytes)'), ('publish', 'QoS1 PUBLISH (9 bytes)')):
     S('st_send_stored_limit_v5_' + _n, {}, stubs=(_st if _n == 'publish' else []), est=600, mem='L',
       bounds='send_stored() with one stored v5.0 %s under a peer limit L over all u32 >= 1, id over all u16 >= 1' % _d, symbolic='L, k', encodes=['send_stored', 'GenericStore::for_each'])
+S('st_recv_pubrec_v5_reason_codes', {}, est=500, mem='M',
+  bounds='v5.0 PUBREC (every defined reason code) for the one QoS2 exchange of a connected client that waits for PUBREC; id over all u16 >= 1, Receive Maximum M and in-flight count (1..=M) over all u16, automatic responses on/off',
+  symbolic='j, M, count, reason code, auto response', encodes=['process_recv_v5_0_pubrec', 'process_send_v5_0_pubrel'])
 for _n in ('q1', 'q2'):
     S('st_erase_stored_one_v5_' + _n, {}, stubs=_st, est=400, mem='L',
       bounds='erase_stored_publish(i) on a connected v5.0 client whose store holds one %s PUBLISH(i); i over all u16 >= 1, Receive Maximum M and the in-flight count (1..=M) over all u16' % _n.upper().replace('Q', 'QoS'), symbolic='i, M, count',
@@ -499,7 +502,7 @@ THOROUGH_EXTRA = {
     'C10': ['st_reuse_client_v311_clean_connect', 'st_recv_connect_v5_server'],
     'C11': ['c11_const_table'] + ['c11_cell_' + _c for _c in C11_DECIDED] + ['st_send_publish_v311_never_dropped', 'st_send_pubrel_states_v311'],
     'C12': ['st_recv_puback_v5_flow', 'st_recv_pubcomp_flow', 'st_recv_pubrec_v5_flow', 'st_send_publish_v5_flow'],
-    'C13': ['st_recv_connect_v5_server_tam', 'st_send_publish_v5_manual_alias_rebind1'],
+    'C13': ['st_recv_connect_v5_server_tam'],
     'C14': ['st_send_publish_v5_limit'],
     'C15': ['st_send_pubrel_states_v311', 'st_send_pingreq_v311_client', 'st_send_disconnect_v5_server', 'st_timer_fired_v311_client', 'st_timer_fired_v5_client_pingresp', 'st_recv_connect_v5_server'],
     'C16': [],
@@ -526,6 +529,7 @@ for _p, _names in THOROUGH_EXTRA.items():
 # Written and compiled on every run, but not decided within the memory / time limits of this sandbox (measured);
 # they are *outside the claim* (DESIGN 10.5) and can be run with `bin/check DEV --only <name>`.
 EXPERIMENTAL = {
+    'st_send_publish_v5_manual_alias_rebind1': '> 28 GB after 17 min (class XL)',
     'st_recv_connack_v311_resume': 'time-out 50 min at 19 GB (class XL)',
     'st_erase_stored_publish_v5': '> 28 GB after 31 min (class XL)',
     'st_send_stored_limit_v5': 'time-out 50 min at 20 GB (class XL)', 'st_send_stored_limit_v5_pubrel': '> 12 GB after 18 min (one stored packet)', 'st_send_stored_limit_v5_publish': 'like the PUBREL form',
